@@ -2,20 +2,29 @@
 """MiniJS support library for the checks that use spec/lang/JsCore.tla as their oracle
 (C01, C04, C05, C08, C10, C19, C20).
 
-  AST          nested dicts, field "t" is the node kind (DESIGN.md Appendix C; SCHEMA below is normative).
-               Builders: lit/num/string/ident/... at the end of this section.
-  render(ast)  fully parenthesised JavaScript source of a program (or of any node).
-  flatten(ast) the node-table form JsCore.tla evaluates (children by index, strings as code units).
-  expect(programs, workers=4, timeout=1800) -> (results, stats)
-               runs TLC once over the batch; results[i] = {"out": [print lines in hjs format],
-               "c": "value:..."|"throw:..."|"OutOfModel", "steps": n, "why": reason when OutOfModel}
-               (an early error is "throw:o:Error:SyntaxError" with empty out, as hjs reports it);
-               stats = {"states", "distinct", "wall", "cmd", "oom": count}.
-               Raises vlib.ToolError when the model gate fails (invariant violated, deadlock = missing rule,
-               nondeterminism).
-  wrap_call(ast)  the program "function f(){BODY}" + the expectation program "function f(){BODY}; f()"
-               for the host-call entry mode.
-  generators   grids(...) deterministic interaction grids; gen_program(rng, profile=...) seeded random programs.
+AST        nested dicts, field "t" is the node kind; SCHEMA (below) is normative: kind -> ordered fields with
+           defaults.  Builders: num/string/boolean/undef/null, ident, binary, logical, unary, update, assign, cond,
+           seq, member, index, call, new, array, hole, spread, obj, prop, cprop, method, param(s), fn, genfn, arrow,
+           function, generator, class_, classexpr, cmethod, cfield, ctor, super_call, super_member, template, this,
+           yield_, optchain, decl, var, let, const, expr, block, if_, while_, dowhile, for_, forin, forof, labeled,
+           break_, continue_, return_, throw, try_, switch, case, print_, program, arraypat, pelem, prest,
+           objectpat, pprop.  JS strings (property keys, literals, template quasis) are Python str.
+           `optional` members/calls must sit inside an optchain node (the chain the short circuit skips).
+render(ast)            fully parenthesised JavaScript source (program, statement or expression).
+flatten(ast)           the node table JsCore.tla evaluates (children by index, strings as code-unit lists).
+expect(programs, workers=4, timeout=1800) -> (results, stats)
+           one TLC run over the batch (model gate included: a violated invariant, a missing rule or a
+           nondeterministic step raises vlib.ToolError).  results[i] = {"out": [print lines in hjs rendering],
+           "c": "value:<v>" | "throw:<v>" | "OutOfModel", "steps": n, "why": reason if OutOfModel,
+           "early": True for an early SyntaxError (reported like hjs does: "throw:o:Error:SyntaxError", out [])}.
+           stats = {"states", "transitions", "wall", "cmd", "oom"}.
+wrap_call(ast)         (definition program, expectation program) for the host-call entry mode.
+grids(tier, families=None) -> [(name, program)]   deterministic interaction grids (GRID_FAMILIES).
+gen_program(seed, profile) / gen_programs(seed, n, profile)   seeded random programs: closed, deterministic,
+           always terminating.  profile: a name in PROFILES ("c01", "c04", "c05", "small") or a dict of weight
+           overrides (keys of PROFILES["base"]).
+variants / shrink(ast, failing_batch) / shrink_many(asts, failing_batch)   batch-oriented greedy shrinking.
+walk(ast), children(ast), size(ast), units(s), from_units(u), obs_value(r), esc_units(us).
 """
 import json
 import os
@@ -777,8 +786,9 @@ class Gen:
                         out.append(n)
         return out
 
-    def declare(self, name, kind, callable_=None):
-        self.scopes[-1][name] = {"kind": kind, "callable": callable_}
+    def declare(self, name, kind, callable_=None, opaque=False):
+        # opaque: holds a function or an engine-created error (their string conversions are not modelled)
+        self.scopes[-1][name] = {"kind": kind, "callable": callable_, "opaque": opaque}
 
     def new_name(self):
         # sometimes shadow an outer name
@@ -841,7 +851,7 @@ class Gen:
             e = self.expr(d)
             if e["t"] in ("fn", "arrow", "genfn", "classexpr"):
                 continue
-            if e["t"] == "ident" and any(e["n"] in sc and sc[e["n"]]["callable"] is not None for sc in self.scopes):
+            if e["t"] == "ident" and any(e["n"] in sc and (sc[e["n"]]["callable"] is not None or sc[e["n"]].get("opaque")) for sc in self.scopes):
                 continue
             return e
         return self.literal()
@@ -1048,7 +1058,7 @@ class Gen:
             t = self.fresh("t")
             self.pending_tdz[-1].append(t)
             init = binary("+", ident(t), num(1))
-        self.declare(nm, kind, callable_)
+        self.declare(nm, kind, callable_, opaque=bool(init) and init["t"] in ("fn", "arrow", "genfn", "classexpr"))
         return N(kind, decls=[decl(nm, init)])
 
     def s_assign(self, d, fn_top):
@@ -1087,7 +1097,7 @@ class Gen:
 
         def mk(l):
             self.scopes.append({})
-            self.scopes[-1][i] = {"kind": "const", "callable": None}   # readable, never a generated assignment target
+            self.scopes[-1][i] = {"kind": "const", "callable": None, "opaque": False}   # readable, never a generated assignment target
             b = self.loop_body(d, l)
             self.scopes.pop()
             return for_(N(kind, decls=[decl(i, num(0))]), binary("<", ident(i), num(n)), update("++", self.r.random() < 0.5, ident(i)), b)
@@ -1118,7 +1128,7 @@ class Gen:
             self.scopes.append({})
             if self.r.random() < 0.8:
                 p = self.fresh("e")
-                self.declare(p, "let")
+                self.declare(p, "let", opaque=True)
             h = self.body_block(d)
             self.scopes.pop()
         if k >= 0.45:
@@ -1181,7 +1191,7 @@ class Gen:
 
         def mk(l):
             self.scopes.append({})
-            self.scopes[-1][x] = {"kind": "const", "callable": None}
+            self.scopes[-1][x] = {"kind": "const", "callable": None, "opaque": False}
             b = self.loop_body(d, l)
             self.scopes.pop()
             return forin(self.r.choice(["let", "const", "var"]), x, self.e_object(1) if self.r.random() < 0.6 else self.var_ref(), b)
@@ -1192,7 +1202,7 @@ class Gen:
 
         def mk(l):
             self.scopes.append({})
-            self.scopes[-1][x] = {"kind": "const", "callable": None}
+            self.scopes[-1][x] = {"kind": "const", "callable": None, "opaque": False}
             b = self.loop_body(d, l)
             self.scopes.pop()
             return forof(self.r.choice(["let", "const", "var"]), x, self.e_array(1), b)
@@ -1283,6 +1293,17 @@ def variants(ast, limit=400):
     by an operand or by a literal.  Smaller candidates first within each class."""
     out = []
     allp = list(_paths(ast))
+    # 0. keep one half / a single statement of a long statement list (fast reduction of long lists)
+    for path, n in allp:
+        lf = _STMT_LISTS.get(n["t"])
+        if lf and len(n[lf]) >= 3:
+            L = len(n[lf])
+            keeps = [list(range(0, L // 2)), list(range(L // 2, L))] + ([[i] for i in range(L)] if not path else [])
+            for ks in keeps:
+                c = copy.deepcopy(ast)
+                node = _get(c, path)
+                node[lf] = [node[lf][i] for i in ks]
+                out.append(c)
     # 1. delete a statement from a statement list (largest statements first)
     dels = []
     for path, n in allp:
@@ -1325,6 +1346,41 @@ def variants(ast, limit=400):
             _set(c, path, copy.deepcopy(sub))
             out.append(c)
     return out[:limit]
+
+
+def shrink_many(asts, failing_batch, max_rounds=30, limit=60, log=None):
+    """Greedy shrinking of several programs at once (one oracle batch per round).
+    failing_batch(list of (program index, candidate)) -> list of bools."""
+    cur = list(asts)
+    active = set(range(len(cur)))
+    for rnd in range(max_rounds):
+        cands = []
+        for i in sorted(active):
+            n = 0
+            for c in variants(cur[i], limit * 3):
+                try:
+                    flatten(c)
+                    render(c)
+                except Exception:
+                    continue
+                cands.append((i, c))
+                n += 1
+                if n >= limit:
+                    break
+        if not cands:
+            break
+        res = failing_batch(cands)
+        progressed = set()
+        for (i, c), bad in zip(cands, res):
+            if bad and i not in progressed:
+                cur[i] = c
+                progressed.add(i)
+        if log:
+            log("shrink round %d: %d candidates, %d programs progressed" % (rnd, len(cands), len(progressed)))
+        active = progressed
+        if not active:
+            break
+    return cur
 
 
 def shrink(ast, failing_batch, max_rounds=40, limit=300):
@@ -1728,8 +1784,55 @@ def grid_classes(tier):
     return out
 
 
+def grid_misc(tier):
+    out = []
+    t = function("t", params("x"), [_p(S("ev"), I("x")), return_(I("x"))])
+    O = I("o")
+    cases = {
+        "optchain-short": [let("o", null()), _p(optchain(N("member", o=O, key="a", optional=True)), optchain(member(N("member", o=O, key="a", optional=True), "b")),
+                                                optchain(N("call", f=N("member", o=O, key="f", optional=True), args=[call(I("t"), num(1))])))],
+        "optchain-call": [let("o", obj(prop("f", fn([], [return_(this())])), prop("n", null()))),
+                          _p(binary("===", optchain(N("call", f=member(O, "f"), args=[], optional=True)), O), optchain(N("call", f=member(O, "n"), args=[call(I("t"), num(2))], optional=True)),
+                             optchain(index(N("member", o=O, key="q", optional=True), call(I("t"), num(3)))))],
+        "optchain-throw": [let("o", obj()), _guard([_p(member(optchain(N("member", o=O, key="a", optional=True)), "b"))])],
+        "genfn-expr": [let("g", genfn(params("a"), [let("x", yield_(I("a"))), expr(yield_(binary("+", I("x"), num(1))))], name="gg")), let("it", call(I("g"), num(5))),
+                       _p(member(call(member(I("it"), "next")), "value"), member(call(member(I("it"), "next"), num(9)), "value"), member(call(member(I("it"), "next")), "done"), unary("typeof", I("gg")))],
+        "classexpr": [let("K", classexpr([cmethod("m", [], [return_(unary("typeof", I("Inner")))]), cfield("v", num(3))], name="Inner")),
+                      _p(call(member(new(I("K")), "m")), member(new(I("K")), "v"), unary("typeof", I("Inner")), unary("typeof", I("K")))],
+        "template-order": [_p(template(["a", "b", "c"], [call(I("t"), num(1)), call(I("t"), S("x"))])), _guard([_p(template(["", ""], [call(I("Symbol"), S("s"))]))])],
+        "getter-setter-order": [let("o", obj(N("prop", kind="get", key="a", v=method([], [_p(S("get a")), return_(num(1))])), N("prop", kind="set", key="a", v=method(params("v"), [_p(S("set a"), I("v"))])))),
+                                expr(assign(member(O, "a"), call(I("t"), num(2)), "+=")), expr(update("++", False, member(O, "a"))), expr(assign(member(O, "a"), num(1), "||=")), expr(assign(member(O, "a"), num(5), "&&="))],
+        "arguments-strict": [function("f", params("a"), [expr(assign(I("a"), num(9))), _p(member(I("arguments"), "length"), index(I("arguments"), num(0)), index(I("arguments"), num(1)), unary("typeof", I("arguments")))]), expr(call(I("f"), num(1), num(2)))],
+        "spread-generator": [generator("g", [], [expr(yield_(num(1))), expr(yield_(num(2)))]), function("h", [param("r", rest=True)], [return_(member(I("r"), "length"))]),
+                             _p(call(I("h"), spread(call(I("g"))), num(0), spread(array(num(7)))), member(array(spread(call(I("g"))), spread(call(I("g")))), "length"))],
+        "spread-notiterable": [_guard([_p(array(spread(num(5))))]), _guard([_p(array(spread(undef())))]), _p(member(obj(N("prop", kind="spread", v=null()), N("prop", kind="spread", v=num(5))), "a"))],
+        "delete-in": [let("o", obj(prop("a", num(1)), prop("b", num(2)))), _p(unary("delete", member(O, "a")), binary("in", S("a"), O), binary("in", S("b"), O), unary("delete", member(O, "zz"))),
+                      let("arr", array(num(1), num(2), num(3))), _p(unary("delete", index(I("arr"), num(1))), member(I("arr"), "length"), index(I("arr"), num(1)), binary("in", num(1), I("arr"))), _guard([_p(binary("in", S("a"), num(5)))])],
+        "hasinstance": [let("C", obj(cprop(member(I("Symbol"), "hasInstance"), fn(params("v"), [_p(S("hi"), I("v")), return_(num(1))])))), _p(binary("instanceof", num(5), I("C"))), _guard([_p(binary("instanceof", num(5), obj()))]),
+                        function("F", [], []), _p(binary("instanceof", new(I("F")), I("F")), binary("instanceof", obj(), I("F")))],
+        "labeled-continue": [labeled("A", for_(N("let", decls=[decl("i", num(0))]), binary("<", I("i"), num(3)), update("++", False, I("i")),
+                                             block(forof("const", "j", array(num(0), num(1)), block(if_(binary("==", I("j"), num(1)), continue_("A")), _p(I("i"), I("j")))))))],
+        "computed-keys": [let("o", obj(cprop(call(I("t"), S("k1")), call(I("t"), num(1))), cprop(call(I("t"), num(2)), call(I("t"), num(3))), N("prop", kind="method", computed=True, k=call(I("t"), S("m")), v=method([], [return_(num(4))])))),
+                          _p(member(O, "k1"), index(O, num(2)), call(member(O, "m"))), forin("const", "k", O, block(_p(I("k"))))],
+        "proto-literal": [let("p", obj(prop("inh", num(1)))), let("o", obj(prop("__proto__", I("p")), prop("own", num(2)))), _p(member(O, "inh"), member(O, "own")), forin("const", "k", O, block(_p(I("k"))))],
+        "array-holes": [let("a", array(num(1), hole(), num(3), hole())), _p(member(I("a"), "length"), index(I("a"), num(1)), binary("in", num(1), I("a"))), forof("const", "v", I("a"), block(_p(I("v")))), forin("const", "k", I("a"), block(_p(I("k")))),
+                        expr(assign(index(I("a"), num(6)), num(7))), _p(member(I("a"), "length")), expr(assign(member(I("a"), "length"), num(2))), _p(member(I("a"), "length"), index(I("a"), num(2)), template(["", ""], [I("a")]))],
+        "tostring-order": [let("o", obj(prop("toString", fn([], [_p(S("ts")), return_(S("k"))])), prop("valueOf", fn([], [_p(S("vo")), return_(num(1))])))),
+                           let("q", obj(prop("k", num(5)))), _p(index(I("q"), O), binary("+", O, S("")), template(["", ""], [O]), binary("*", O, num(2)), binary("==", O, num(1)), binary("<", O, S("2")))],
+        "symbol-desc": [let("s", call(I("Symbol"))), let("t2", call(I("Symbol"), num(5))), _p(I("s"), I("t2"), unary("typeof", I("s")), binary("===", I("s"), I("s")), binary("==", I("s"), I("t2"))), _guard([_p(binary("+", I("s"), num(1)))]), _guard([expr(new(I("Symbol")))])],
+        "error-objects": [let("e", new(I("TypeError"), S("msg"))), _p(I("e"), member(I("e"), "message"), member(I("e"), "name"), binary("instanceof", I("e"), I("Error")), binary("+", S(""), I("e")), call(I("RangeError"), S("r")), member(new(I("Error")), "message"))],
+        "seq-void-exp": [_p(seq(call(I("t"), num(1)), call(I("t"), num(2))), unary("void", call(I("t"), num(3))), binary("**", num(2), num(10)), binary("**", num(-2), num(3)), binary("**", num(2), num(-1) if False else num(0)), binary("%", num(-7), num(3)), binary(">>>", num(-8), num(28)), binary("<<", num(1), num(33)))],
+    }
+    for nm, body in cases.items():
+        for strict in (False, True):
+            if nm == "arguments-strict" and not strict:
+                continue
+            out.append(("misc/%s/%s" % (nm, "strict" if strict else "sloppy"), program([t] + copy.deepcopy(body), strict=strict)))
+    return out
+
+
 GRID_FAMILIES = {"exits": grid_exits, "genexits": grid_generator_exits, "bindings": grid_bindings, "operators": grid_operators,
-                 "destructuring": grid_destructuring, "completion": grid_completion, "classes": grid_classes}
+                 "destructuring": grid_destructuring, "completion": grid_completion, "classes": grid_classes, "misc": grid_misc}
 
 
 def grids(tier="quick", families=None):
